@@ -44,6 +44,7 @@ OPS = ('assign', 'assign_inplace', 'repopulate', 'statistics', 'optimise', 'rela
 class C13(Check):
     pid = 'C13'
     validate = True
+    fork_logging = True       # DEBUG logging on/off is a symbolic input of every path
     anchors = [('src/fast_ticc/containers/model_state.py', 'ModelState._update_cluster_membership'),
                ('src/fast_ticc/containers/model_state.py', 'ModelState.point_labels'),
                ('src/fast_ticc/containers/model_state.py', 'ModelState.deep_copy'),
